@@ -121,16 +121,26 @@ package procbuilder
 //@   loop 1: invariant now >= 1 && forall k int :: 0 <= k && k < $i ==> now >= arch.Op[k].Op_get_instruction_len(arch)
 //@   pure
 
+//@ props C16
+// Zero-annotation sweep over every opcode type: the assembler never panics, emits only binary digits and at least
+// the architecture's word width (the dispatcher then enforces exactly that width).
+//@ exclude Call.Assembler: dynamic opcode; needs the receiver invariant opType in {CALLO, CALLA, RET} (otherwise words[0] is read unchecked), which an interface-level contract cannot state
+//@ exclude Rsets.Assembler: dynamic opcode; needs the receiver invariant s >= 0
+//@ exclude R2v.Assembler: text-memory geometry comes from Shared_constraints through strconv.Atoi without range checks (Needed_bits precondition not established)
 //@ interface Opcode method Assembler(arch *Arch, words []string) (string, error)
 //@   requires wfArch(arch)
 //@   ensures at_least_width: err == nil ==> arch.Opcodes_bits() + len(result) >= arch.Max_word()
 //@   ensures binary: err == nil ==> isbin(result)
 //@   pure
 
+//@ props C16 C03
 // Process_number goes through the number library (bmnumbers.ImportString + ExportBinary(false)); its contract is
 // assumed here and is what property C08 establishes on the bmnumbers side.
+// numval: the value a numeric literal denotes (defined by the number library, see C08)
+//@ uninterp numval(s string) int
 //@ func Process_number(input string) (string, error)
-//@   ensures binary: result1 == nil ==> isbin(result)
+//@   ensures binary: result1 == nil ==> isbin(result) && len(result) >= 1
+//@   ensures value: result1 == nil ==> val(result) == numval(input) && numval(input) >= 0 && (len(result) == 1 || at(result, 0) == '1')
 //@   trusted
 //@   pure
 
@@ -182,3 +192,6 @@ package procbuilder
 //@   loop 1: invariant words: forall k int :: 0 <= k && k < j ==> len(maxLines[k]) == arch.Max_word() && isbin(maxLines[k])
 //@   loop 2: modifies lines[*]
 //@   loop 2: invariant forall k int :: 0 <= k && k < $i ==> lines[k] == maxLines[k]
+
+// ---------------------------------------------------------------------------------------------
+// Per-opcode functional contracts (C03): field layout of the assembled word and its inversion.
